@@ -110,7 +110,7 @@ def make_overlay(variant, vcfg, rundir):
 def build_variant(variant, checks, rundir, tag):
     vcfg = checks["variants"][variant]
     ov = make_overlay(variant, vcfg, rundir)
-    out = os.path.join(WORK, "bin", "%s-%s.test" % (variant, tag))
+    out = os.path.join(WORK, "bin", "%s-%s-%d.test" % (variant, tag, os.getpid()))
     os.makedirs(os.path.dirname(out), exist_ok=True)
     cmd = [gobin(), "test", "-c", "-tags", "verif", "-vet=off", "-overlay", ov, "-o", out, "./" + vcfg["pkg"]]
     if vcfg.get("race"):
@@ -275,8 +275,9 @@ def write_evidence(prop, ccfg, tier, seed, m, wall, nviol, extra):
         "coverage": cov, "assumptions": m["assumptions"] + ccfg.get("assumptions", []),
         "wall_s": round(wall, 2), "violations": nviol,
     }
-    os.makedirs(os.path.join(VERIF, "evidence"), exist_ok=True)
-    p = os.path.join(VERIF, "evidence", prop + ".json")
+    evdir = os.environ.get("VERIF_EVIDENCE_DIR") or os.path.join(VERIF, "evidence")
+    os.makedirs(evdir, exist_ok=True)
+    p = os.path.join(evdir, prop + ".json")
     with open(p + ".tmp", "w") as f:
         json.dump(ev, f, indent=1, sort_keys=False, default=str)
     os.replace(p + ".tmp", p)
